@@ -642,6 +642,51 @@ func (ev *SpecEval) call(x *SCall) (TV, error) {
 		sub.phis = nil
 		return sub.eval(x.Args[0])
 	}
+	if (id.Name == "funcref" && len(x.Args) == 1) || (id.Name == "isClosure" && len(x.Args) == 2) || (id.Name == "captured" && len(x.Args) == 3) {
+		// function values: funcref("pkg.f") is the constant of a top-level function; isClosure(v, "pkg.f$1") says v
+		// is a closure of that function literal; captured(v, "pkg.f$1", "x") is the value it captured for x
+		ks, ok := x.Args[len(x.Args)-1].(*SStr)
+		kidx := len(x.Args) - 1
+		if id.Name == "captured" {
+			ks, ok = x.Args[1].(*SStr)
+			kidx = 1
+		}
+		_ = kidx
+		if !ok {
+			return TV{}, fmt.Errorf("%s: function key must be a string literal", id.Name)
+		}
+		fn := c.w.Funcs[ks.V]
+		if fn == nil {
+			return TV{}, fmt.Errorf("%s: unknown function %q", id.Name, ks.V)
+		}
+		if id.Name == "funcref" {
+			return TV{T: c.term(Val{Fn: fn, Typ: fn.Type()}), Typ: fn.Type()}, nil
+		}
+		v, err := ev.eval(x.Args[0])
+		if err != nil {
+			return TV{}, err
+		}
+		if id.Name == "isClosure" {
+			return TV{T: fmt.Sprintf("(and (> %s nglobals) (= (fnid %s) %d))", v.T, v.T, c.w.fnID(fn)), Typ: tBool}, nil
+		}
+		ns, ok := x.Args[2].(*SStr)
+		if !ok {
+			return TV{}, fmt.Errorf("captured: variable name must be a string literal")
+		}
+		for k, fv := range fn.FreeVars {
+			if fv.Name() == ns.V {
+				ft := fv.Type()
+				if pt, ok := ft.Underlying().(*types.Pointer); ok {
+					// a variable captured by reference: its content (recorded only if it is never reassigned)
+					ft = pt.Elem()
+				}
+				srt := c.sorts.Of(ft)
+				name := c.bindFun(k, srt)
+				return TV{T: fmt.Sprintf("(%s %s)", name, v.T), Typ: ft}, nil
+			}
+		}
+		return TV{}, fmt.Errorf("captured: %s has no captured variable %q", ks.V, ns.V)
+	}
 	if id.Name == "called" && len(x.Args) == 2 {
 		i, err := ev.eval(x.Args[0])
 		if err != nil {
@@ -792,6 +837,10 @@ func (ev *SpecEval) call(x *SCall) (TV, error) {
 		return TV{T: fmt.Sprintf("(mk_slice (select %s %s) (select %s %s) (select %s %s) (select %s %s))", aa, i, ao, i, al, i, ac, i), Sort: "Slice"}, nil
 	case "nvarargs":
 		a := c.arr(ev.st, "TR_len", "Int")
+		return TV{T: fmt.Sprintf("(select %s %s)", a, args[0].T), Typ: tInt}, nil
+	case "callee":
+		// the function value a logged call went through (calls of function-typed values only)
+		a := c.arr(ev.st, "TR_callee", "Int")
 		return TV{T: fmt.Sprintf("(select %s %s)", a, args[0].T), Typ: tInt}, nil
 	case "arg1", "arg2", "arg3", "arg4", "arg5", "arg6", "result":
 		arr := map[string]string{"arg1": "TR_a1", "arg2": "TR_a2", "arg3": "TR_a3", "arg4": "TR_a4", "arg5": "TR_a5", "arg6": "TR_a6", "result": "TR_res"}[id.Name]
